@@ -332,6 +332,21 @@ def gen_overlay(rng):
     return {'layout': 'overlay', 'p': p}
 
 
+def gen_big(rng, knobs):
+    """A stream whose length sits just around one of the size knobs of the
+    module under test (sim.imgsim.size_knobs): unstructured filler, or a
+    well-formed image followed by that much trailing data."""
+    k = rng.choice(knobs)
+    total = k + rng.choice((-1, 0, 1, 1, 512, 4096, k // 4))
+    f = rng.choice(('zero', 'text', 'text', 'inc',
+                    'rand:%d' % rng.randrange(1 << 20)))
+    if rng.random() < 0.55:
+        return 'big', {'layout': 'raw', 'p': {'total': total, 'fill': f}}
+    rec = gen_wellformed(rng)
+    rec['ext'] = [f, total]
+    return 'big', rec
+
+
 CONTENT_CLASSES = [('wellformed', 4), ('mutated', 5), ('truncated', 3),
                    ('extended', 1), ('polyglot', 2), ('unstructured', 2)]
 
